@@ -92,6 +92,14 @@ def run(ctx: core.Ctx):
             if r.shape != shape or not np.array_equal(back(r), V, equal_nan=True):
                 ctx.violation(f"{op}.compute/argument-form/{label}/values", {"op": op, "form": label}, "table", "differs",
                               note=f"{label} operands give other values than the same values in plain vectors")
+        # Python ints are acceptable floats
+        for ia, ib in ((0, 0), (0, 1), (1, 0), (1, 1)):
+            ctx.count(1)
+            ri, rf = float(np.asarray(objs[op].compute(ia, ib), dtype=float)), float(np.asarray(objs[op].compute(float(ia), float(ib)), dtype=float))
+            ra = np.asarray(objs[op].compute(np.array([ia, ib]), np.array([ib, ia])), dtype=float)
+            rfa = np.asarray(objs[op].compute(np.array([float(ia), float(ib)]), np.array([float(ib), float(ia)])), dtype=float)
+            if ri != rf or not np.array_equal(ra, rfa, equal_nan=True):
+                ctx.violation(f"{op}.compute/argument-form/python-int/values", {"op": op, "a": ia, "b": ib}, rf, ri, note="integer operands give another value than the same numbers as floats")
         # batches of length one keep their shape
         for sh in ((1,), (1, 1)):
             a1, b1 = np.full(sh, A[len(A) // 2]), np.full(sh, B[len(B) // 3])
